@@ -47,7 +47,10 @@ def run_one(mod, case, agg, idx=None, keep=4):
         return None
     dt = time.time() - t0
     agg["stats"]["max:case_wall_s"] = max(agg["stats"].get("max:case_wall_s", 0.0), round(dt, 3))
-    if res.get("nontrivial"):
+    agg["evaluations"] += max(0, res.get("units", 1) - 1)  # a case may be a block of several executions
+    if res.get("digests") is not None:
+        agg["nontrivial"].update(res["digests"])
+    elif res.get("nontrivial"):
         agg["nontrivial"].add(res.get("digest") or digest(case))
     merge_stats(agg["stats"], res.get("stats"))
     for v in res.get("violations", []):
